@@ -483,6 +483,8 @@ func (e *esdtNFTMultiTransfer) addNFTToDestination(
 		}
 	}
 	esdtDataToTransfer.Value.Add(esdtDataToTransfer.Value, currentESDTData.Value)
+	// the properties (frozen flag) belong to the holding account, not to the tokens that arrive
+	esdtDataToTransfer.Properties = currentESDTData.Properties
 
 	_, err = saveESDTNFTToken(userAccount, esdtTokenKey, esdtDataToTransfer, e.marshalizer, e.pauseHandler, isReturnCallWithError)
 	if err != nil {
